@@ -431,3 +431,49 @@ Proof.
   - apply No in E2. congruence.
   - apply No in E1. congruence.
 Qed.
+
+(** ---- C08 (1): export followed by import restores exactly the same state ---- *)
+Lemma map_deref_grows_opts h h' os : grows h h' -> below (length h) (somes os) ->
+  map (option_map (deref h')) os = map (option_map (deref h)) os.
+Proof.
+  intros [_ G] Hb. apply map_ext_in. intros [l|] Hin; cbn; [|reflexivity]. f_equal. apply G. apply Hb. now apply somes_in.
+Qed.
+Lemma map_deref_grows_lists h h' lss : grows h h' -> below (length h) (concat lss) ->
+  map (map (deref h')) lss = map (map (deref h)) lss.
+Proof.
+  intros [_ G] Hb. apply map_ext_in. intros ls Hin. apply map_ext_in. intros l Hl. apply G. apply Hb. apply in_concat. eauto.
+Qed.
+
+Theorem export_import_roundtrip pol s c :
+  fresh_to_dict pol = true -> fresh_import pol = true -> Inv (s, c) ->
+  let sc1 := step pol (s, c) ToDict in
+  let sc2 := step pol sc1 (Import 0) in
+  view (fst sc2) = view s.
+Proof.
+  intros P6 P7 (Hb & _). cbn [step]. rewrite P6.
+  assert (Hcur : below (length (hp s)) (somes (cur s))) by (intros l Hl; apply Hb; unfold internal; apply in_or_app; now left).
+  assert (Hhist : below (length (hp s)) (concat (hist s))).
+  { intros l Hl; apply Hb; unfold internal; apply in_or_app; right; apply in_or_app; now left. }
+  destruct (copy_opts true (hp s) (cur s)) as [h1 cs] eqn:E1.
+  destruct (copy_lists true h1 (hist s)) as [h2 hs] eqn:E2.
+  destruct (copy_opts_fresh _ _ _ _ E1) as (G1 & B1 & D1 & _).
+  destruct (copy_lists_fresh _ _ _ _ E2) as (G2 & B2 & D2 & _).
+  cbn [step dicts nth_error]. rewrite P7. cbn [hp].
+  destruct (copy_opts true h2 cs) as [h3 cs'] eqn:E3.
+  destruct (copy_lists true h3 hs) as [h4 hs'] eqn:E4.
+  destruct (copy_opts_fresh _ _ _ _ E3) as (G3 & B3 & D3 & _).
+  destruct (copy_lists_fresh _ _ _ _ E4) as (G4 & B4 & D4 & _).
+  cbn [fst]. unfold view. cbn [cur hist hp].
+  assert (Bcs2 : below (length h2) (somes cs)). { intros l Hl. apply B1 in Hl. destruct G2. lia. }
+  assert (Bhs3 : below (length h3) (concat hs)). { intros l Hl. apply B2 in Hl. destruct G3. lia. }
+  assert (Bcs'4 : below (length h3) (somes cs')). { intros l Hl. apply B3 in Hl. lia. }
+  f_equal.
+  - rewrite (map_deref_grows_opts h3 h4 cs' G4 Bcs'4). rewrite (D3 Bcs2).
+    assert (Bcs1 : below (length h1) (somes cs)) by (intros l Hl; apply B1 in Hl; lia).
+    rewrite (map_deref_grows_opts h1 h2 cs G2 Bcs1). apply D1. exact Hcur.
+  - rewrite (D4 Bhs3).
+    assert (Bhs2 : below (length h2) (concat hs)) by (intros l Hl; apply B2 in Hl; lia).
+    rewrite (map_deref_grows_lists h2 h3 hs G3 Bhs2). rewrite D2.
+    + apply map_deref_grows_lists; [exact G1|exact Hhist].
+    + intros l Hl. apply Hhist in Hl. destruct G1. lia.
+Qed.
